@@ -55,8 +55,37 @@ func fatal2(format string, args ...any) {
 	os.Exit(2)
 }
 
+// repoDir is the library tree the checks are built against: /repo, unless VERIF_REPO_DIR names
+// another checkout (used only for background exploration on a snapshot; MANIFEST commands never set it).
+func repoDir() string {
+	if d := os.Getenv("VERIF_REPO_DIR"); d != "" {
+		return d
+	}
+	return "/repo"
+}
+
+// altModfile writes a go.mod whose replace directive points at repoDir() and returns the flag.
+func altModfile() []string {
+	if repoDir() == "/repo" {
+		return nil
+	}
+	src, err := os.ReadFile(filepath.Join(verifDir, "harness", "go.mod"))
+	if err != nil {
+		return nil
+	}
+	dir := filepath.Join(verifDir, ".build")
+	_ = os.MkdirAll(dir, 0o755)
+	mod := filepath.Join(dir, "go.alt.mod")
+	_ = os.WriteFile(mod, []byte(strings.Replace(string(src), "=> /repo", "=> "+repoDir(), 1)), 0o644)
+	if sum, err := os.ReadFile(filepath.Join(verifDir, "harness", "go.sum")); err == nil {
+		_ = os.WriteFile(filepath.Join(dir, "go.alt.sum"), sum, 0o644)
+	}
+	return []string{"-modfile=" + mod}
+}
+
 func buildBinary(out string, race bool) error {
 	args := []string{"test", "-c", "-vet=off", "-o", out}
+	args = append(args, altModfile()...)
 	if race {
 		args = append(args, "-race")
 	}
@@ -106,7 +135,7 @@ func runShard(bin string, cs *checkSpec, shard int, checks int, seed int64, tier
 		"VERIF_FAIL_OUT="+res.failFile,
 		"VERIF_JOURNAL="+res.journal,
 		"VERIF_REPLAY_DIR="+filepath.Join(verifDir, "replays"),
-		"VERIF_REPO=/repo",
+		"VERIF_REPO="+repoDir(),
 		"VERIF_BIN="+bin,
 		"GORACE=halt_on_error=1 exitcode=66",
 	)
@@ -277,7 +306,7 @@ func readKnownFindings() []knownFinding {
 func replayFile(bin, file string, timeout time.Duration) (bool, bool, string) {
 	cmd := exec.Command(bin, "-test.run", "^TestReplay$", "-test.v", "-test.timeout", "0")
 	cmd.Dir = filepath.Dir(bin)
-	cmd.Env = env("VERIF_REPLAY_FILE="+file, "VERIF_REPO=/repo", "VERIF_BIN="+bin, "GORACE=halt_on_error=1 exitcode=66")
+	cmd.Env = env("VERIF_REPLAY_FILE="+file, "VERIF_REPO="+repoDir(), "VERIF_BIN="+bin, "GORACE=halt_on_error=1 exitcode=66")
 	var buf bytes.Buffer
 	cmd.Stdout, cmd.Stderr = &buf, &buf
 	cmd.SysProcAttr = &syscall.SysProcAttr{Setpgid: true}
@@ -773,10 +802,12 @@ func runFuzz(cs *checkSpec, workDir, bin string) fuzzResult {
 	_ = os.RemoveAll(crashDir)
 	failFile := filepath.Join(workDir, cs.Fuzz+".fail.json")
 	_ = os.Remove(failFile)
-	cmd := exec.Command("go", "test", "-vet=off", "-run", "^$", "-fuzz", "^"+cs.Fuzz+"$", "-fuzztime", fmt.Sprintf("%ds", cs.FuzzSeconds),
+	fuzzArgs := append([]string{"test", "-vet=off"}, altModfile()...)
+	fuzzArgs = append(fuzzArgs, "-run", "^$", "-fuzz", "^"+cs.Fuzz+"$", "-fuzztime", fmt.Sprintf("%ds", cs.FuzzSeconds),
 		"-test.fuzzcachedir", filepath.Join(verifDir, ".build", "fuzzcache"), ".")
+	cmd := exec.Command("go", fuzzArgs...)
 	cmd.Dir = propsDir
-	cmd.Env = env("VERIF_FAIL_OUT="+failFile, "VERIF_REPO=/repo", "VERIF_BIN="+bin, "VERIF_TIER=thorough", "VERIF_STATS_DIR=", "VERIF_JOURNAL=")
+	cmd.Env = env("VERIF_FAIL_OUT="+failFile, "VERIF_REPO="+repoDir(), "VERIF_BIN="+bin, "VERIF_TIER=thorough", "VERIF_STATS_DIR=", "VERIF_JOURNAL=")
 	var buf bytes.Buffer
 	cmd.Stdout, cmd.Stderr = &buf, &buf
 	cmd.SysProcAttr = &syscall.SysProcAttr{Setpgid: true}
